@@ -35,6 +35,11 @@ pub fn get_rewards_share(deps: Deps, address: Addr) -> Result<RewardsShareRespon
     }
 
     let start_epoch = last_epoch_user_weight_update;
+    if start_epoch > current_epoch {
+        // the earliest entry is for a later epoch (it was written by a position change or a claim made
+        // during the current epoch), so it is not in effect yet
+        last_user_weight_seen = Uint128::zero();
+    }
     for epoch_id in start_epoch..=current_epoch {
         let user_weight_at_epoch =
             ADDRESS_WEIGHT_HISTORY.may_load(deps.storage, (&address.clone(), epoch_id))?;
@@ -48,8 +53,12 @@ pub fn get_rewards_share(deps: Deps, address: Addr) -> Result<RewardsShareRespon
         GLOBAL_WEIGHT_SNAPSHOT.may_load(deps.storage, current_epoch)?;
 
     if let Some(global_weight_snapshot) = global_weight_at_current_epoch {
-        let user_share_at_epoch =
-            Decimal256::from_ratio(last_user_weight_seen, global_weight_snapshot);
+        // nothing is distributed for an epoch whose global weight is zero, avoid dividing by zero
+        let user_share_at_epoch = if global_weight_snapshot.is_zero() {
+            Decimal256::zero()
+        } else {
+            Decimal256::from_ratio(last_user_weight_seen, global_weight_snapshot)
+        };
 
         Ok(RewardsShareResponse {
             address,
